@@ -1060,7 +1060,11 @@ package whispertool
 //@                 && -2147483648 < floorTo(points[len(points) - 1].Time, stepOf(w, archiveID)) - old(baseOf(w, archiveID))
 //@                 && floorTo(points[len(points) - 1].Time, stepOf(w, archiveID)) - old(baseOf(w, archiveID)) <= 2147483647
 //@                 ==> newestSlotHolds(w, archiveID, points[len(points) - 1].Time, bits(points[len(points) - 1].Value), 0)
+//@   assert[C03] routed: (forall j :: 0 <= j && j < len(points) ==> points[j].Time > now - retOf(w, archiveID))
+//@                 && (entry(archiveID) != -1 ==> archiveID == entry(archiveID))
+//@                 && (entry(archiveID) == -1 && archiveID > 0 ==> forall j :: 0 <= j && j < len(points) ==> points[j].Time <= now - retOf(w, archiveID - 1)) before (*Whisper).archiveUpdateMany
 //@ loop (*Whisper).UpdatePointsForArchive#0
+//@   invariant older: archiveID == -1 && iter > 0 ==> forall j :: 0 <= j && j < len(points) ==> points[j].Time <= now - retOf(w, iter - 1)
 //@   invariant newest_named: archiveID >= 0 && iter > archiveID && len(entry(points)) > 0 && entry(points)[len(entry(points)) - 1].Time > now - retOf(w, archiveID)
 //@                 && old(baseOf(w, archiveID)) != 0 && alignedTo(old(baseOf(w, archiveID)), stepOf(w, archiveID))
 //@                 && -2147483648 < floorTo(entry(points)[len(entry(points)) - 1].Time, stepOf(w, archiveID)) - old(baseOf(w, archiveID))
